@@ -918,7 +918,9 @@ func (s *Solver) Close() {
 	if s.cmd != nil && s.cmd.Process != nil {
 		s.in.Close()
 		s.cmd.Process.Kill()
-		s.cmd.Wait()
+		// reap asynchronously: a solver that does not die at once (observed: waitid on the pidfd
+		// blocking for minutes under load) must not stall the check
+		go func(c *exec.Cmd) { c.Wait() }(s.cmd)
 	}
 	s.dead = true
 }
